@@ -38,6 +38,9 @@ type Conn struct {
 	// pending and later writes fail with a timeout until the deadline is set anew
 	wdl      *vtimer
 	wexpired bool
+	// read deadline of this end (SetReadDeadline), like the write deadline: once passed, Read fails with a timeout
+	rdl      *vtimer
+	rexpired bool
 	// writer: the goroutine whose Write is under way (part of its buffer accepted); like the write
 	// lock of a netFD it keeps the Writes of other goroutines out until that Write has returned
 	writer *G
@@ -120,10 +123,36 @@ func (c *Conn) Close() error {
 func (c *Conn) LocalAddr() net.Addr                { return addr(c.id) }
 func (c *Conn) RemoteAddr() net.Addr               { return addr(c.peer.id) }
 func (c *Conn) SetDeadline(t time.Time) error      { return nil }
-func (c *Conn) SetReadDeadline(t time.Time) error  { return nil }
+func (c *Conn) SetReadDeadline(t time.Time) error {
+	s := S
+	if s == nil || s.dead {
+		return nil
+	}
+	Touch("rdeadline:" + c.id)
+	if c.rdl != nil {
+		c.rdl.active = false
+		c.rdl = nil
+	}
+	c.rexpired = false
+	if t.IsZero() {
+		return nil
+	}
+	d := t.Sub(Now())
+	if d <= 0 {
+		c.rexpired = true
+		return nil
+	}
+	tm := &vtimer{deadline: s.now + d, active: true, conn: c, read: true}
+	g := s.cur
+	g.nobj++
+	tm.id = fmt.Sprintf("%s~%d", g.id, g.nobj)
+	s.timers = append(s.timers, tm)
+	c.rdl = tm
+	return nil
+}
 // SetWriteDeadline is a visible operation: the deadline is a property of the connection and
-// also applies to a Write of another goroutine that is already blocked.  (SetDeadline and
-// SetReadDeadline are not modelled: nothing on the explored paths relies on them.)
+// also applies to a Write of another goroutine that is already blocked.  (SetDeadline is
+// not modelled: only the dialer of gobwas/ws calls it, with a real-time value.)
 func (c *Conn) SetWriteDeadline(t time.Time) error {
 	s := S
 	if s == nil || s.dead {
